@@ -64,6 +64,7 @@ def run(ctx):
             C.traffic_sweep(ctx, model, 1 if quick else 4, profile, stats)
             C.inside_sweep(ctx, model, 1 if quick else 4, profile, stats)
             C.handler_retry_sweep(ctx, model, 1 if quick else 4, profile, stats)
+            C.two_pending_sweep(ctx, profile, stats)
             C.retry_sweep(ctx, model, 2 if quick else 20, profile, stats)
             C.history_sweep(ctx, model, lambda k: True, 25 if quick else 400, stats, judge_answers=False)
             C.history_sweep(ctx, model, lambda k: True, 40 if quick else 500, stats, judge_answers=False, length=(4, 10),
@@ -102,6 +103,7 @@ def run(ctx):
     ctx.coverage["request_traffic_reply_cases"] = stats.get("traffic_cases", 0)
     ctx.coverage["reply_inside_send_cases"] = stats.get("inside_cases", 0)
     ctx.coverage["retry_from_inside_the_answer_handler_cases"] = stats.get("handler_retry_cases", {})
+    ctx.coverage["pairs_of_different_requests_outstanding_together"] = stats.get("two_pending_cases", 0)
     ctx.coverage["histories_on_one_stack"] = {"histories": stats.get("histories", 0), "steps": stats.get("history_steps", 0),
                                               "both_directions_pairs": stats.get("history_direction_pairs", 0)}
     ctx.coverage["cases_per_kind"] = min(stats["per_kind"].values()) if stats["per_kind"] else 0
